@@ -359,6 +359,10 @@ func submitBody(maxFields int) nd.Body {
 			return res
 		}
 		var sub xml.TokenReader
+		// answering a form does not change the form: it encodes the same before
+		// and after the submission was produced and read
+		var formBefore, formAfter []byte
+		nd.Catch(func() { formBefore, _ = xml.Marshal(d) })
 		if p := nd.Catch(func() { sub, _ = d.Submit() }); p != nil {
 			res.Outcome = "panic"
 			res.Violation = viol("form.Data:"+psig(p), "%s: Submit panics: %s\n%s", desc.String(), p.Value, p.Stack)
@@ -369,6 +373,12 @@ func submitBody(maxFields int) nd.Body {
 		if p := nd.Catch(func() { b, err = xu.Render(sub) }); p != nil {
 			res.Outcome = "panic"
 			res.Violation = viol("form.Data:"+psig(p), "%s: reading the submission panics: %s\n%s", desc.String(), p.Value, p.Stack)
+			return res
+		}
+		nd.Catch(func() { formAfter, _ = xml.Marshal(d) })
+		if formBefore != nil && string(formBefore) != string(formAfter) {
+			res.Outcome = "form-changed"
+			res.Violation = viol("form.Data:Submit:changes-the-form", "%s: the form encoded as %s before it was submitted and as %s afterwards", desc.String(), formBefore, formAfter)
 			return res
 		}
 		if err == nil {
